@@ -4,7 +4,100 @@
 #include "llbuild/Basic/ShellUtility.h"
 #include "llvm/ADT/SmallString.h"
 #include "llvm/Support/raw_ostream.h"
+#include "llbuild/BuildSystem/BuildValue.h"
+#include "llbuild/BuildSystem/BuildKey.h"
+#include "llbuild/Basic/FileInfo.h"
+#include "llbuild/Basic/StringList.h"
 using namespace llbuild;
+using namespace llbuild::buildsystem;
+using llbuild::basic::FileInfo;
+
+// ---- codec helpers (C15) ----
+static std::string u64s(uint64_t v) { return std::to_string((unsigned long long)v); }
+static FileInfo parseFI(const std::string& s) {
+  SV f = split(s, ':'); FileInfo fi; memset(&fi, 0, sizeof(fi));
+  fi.device = strtoull(f[0].c_str(), 0, 10); fi.inode = strtoull(f[1].c_str(), 0, 10);
+  fi.mode = strtoull(f[2].c_str(), 0, 10); fi.size = strtoull(f[3].c_str(), 0, 10);
+  fi.modTime.seconds = strtoull(f[4].c_str(), 0, 10); fi.modTime.nanoseconds = strtoull(f[5].c_str(), 0, 10);
+  std::string ck = unhex(f[6]); for (size_t i = 0; i < 32 && i < ck.size(); i++) fi.checksum.bytes[i] = (uint8_t)ck[i];
+  return fi;
+}
+static std::string showFI(const FileInfo& fi) {
+  return u64s(fi.device) + ":" + u64s(fi.inode) + ":" + u64s(fi.mode) + ":" + u64s(fi.size) + ":" +
+         u64s(fi.modTime.seconds) + ":" + u64s(fi.modTime.nanoseconds) + ":" + hex(fi.checksum.bytes, 32);
+}
+static std::vector<FileInfo> parseFIs(const std::string& s) {
+  std::vector<FileInfo> r; if (s == ".") return r; for (auto& x : split(s, ';')) r.push_back(parseFI(x)); return r;
+}
+static BuildValue makeValue(int kind, uint64_t sig, const std::vector<FileInfo>& infos, const SV& strs) {
+  basic::CommandSignature cs(sig);
+  switch (kind) {
+  case 0: return BuildValue::makeInvalid();
+  case 1: return BuildValue::makeVirtualInput();
+  case 2: return BuildValue::makeExistingInput(infos[0]);
+  case 3: return BuildValue::makeMissingInput();
+  case 4: return BuildValue::makeDirectoryContents(infos[0], strs);
+  case 5: return BuildValue::makeDirectoryTreeSignature(cs);
+  case 6: return BuildValue::makeDirectoryTreeStructureSignature(cs);
+  case 7: return BuildValue::makeStaleFileRemoval(strs);
+  case 8: return BuildValue::makeMissingOutput();
+  case 9: return BuildValue::makeFailedInput();
+  case 10: return BuildValue::makeSuccessfulCommand(infos);
+  case 11: return BuildValue::makeFailedCommand();
+  case 12: return BuildValue::makePropagatedFailureCommand();
+  case 13: return BuildValue::makeCancelledCommand();
+  case 14: return BuildValue::makeSkippedCommand();
+  case 15: return BuildValue::makeTarget();
+  case 16: return BuildValue::makeFilteredDirectoryContents(strs);
+  case 17: return BuildValue::makeSuccessfulCommandWithOutputSignature(infos, cs);
+  }
+  return BuildValue::makeInvalid();
+}
+static std::string vbytes(const BuildValue& v) { auto d = v.toData(); return hex(d.data(), d.size()); }
+static std::string showValue(const BuildValue& v) {
+  int k = (int)v.getKind(); std::string r = std::to_string(k);
+  bool hs = (k == 5 || k == 6 || k == 17), hi = (k == 2 || k == 10 || k == 17 || k == 4), hl = (k == 4 || k == 16 || k == 7);
+  uint64_t sig = 0;
+  if (k == 5) sig = v.getDirectoryTreeSignature().value; else if (k == 6) sig = v.getDirectoryTreeStructureSignature().value;
+  else if (k == 17) sig = v.getOutputSignature().value;
+  r += " " + u64s(sig) + " ";
+  if (hi) { for (unsigned i = 0; i < v.getNumOutputs(); i++) { if (i) r += ";"; r += showFI(v.getNthOutputInfo(i)); } if (v.getNumOutputs() == 0) r += "."; }
+  else r += ".";
+  r += " ";
+  if (hl) { SV l; auto vals = (k == 7) ? v.getStaleFileList() : v.getDirectoryContents(); for (auto x : vals) l.push_back(x.str()); r += enlist(l); }
+  else r += ".";
+  return r;
+}
+static BuildKey makeKey(int kind, const std::string& name, const std::string& data, const SV& filters) {
+  basic::StringList fl{ArrayRef<std::string>(filters)};
+  switch (kind) {
+  case 0: return BuildKey::makeCommand(name);
+  case 1: return BuildKey::makeCustomTask(name, data);
+  case 2: return BuildKey::makeDirectoryContents(name);
+  case 3: return BuildKey::makeFilteredDirectoryContents(name, fl);
+  case 4: return BuildKey::makeDirectoryTreeSignature(name, fl);
+  case 5: return BuildKey::makeDirectoryTreeStructureSignature(name, fl);
+  case 6: return BuildKey::makeNode(name);
+  case 7: return BuildKey::makeStat(name);
+  default: return BuildKey::makeTarget(name);
+  }
+}
+static std::string showKey(const BuildKey& k) {
+  int kind = (int)k.getKind(); std::string r = std::to_string(kind) + " ";
+  auto fl = [&]() { SV l; basic::StringList sl = k.getContentExclusionPatternsAsStringList(); for (auto x : sl.getValues()) l.push_back(x.str()); return enlist(l); };
+  switch (k.getKind()) {
+  case BuildKey::Kind::Command: return r + hex(k.getCommandName().str()) + " - .";
+  case BuildKey::Kind::CustomTask: return r + hex(k.getCustomTaskName().str()) + " " + hex(k.getCustomTaskData().str()) + " .";
+  case BuildKey::Kind::DirectoryContents: return r + hex(k.getDirectoryPath().str()) + " - .";
+  case BuildKey::Kind::FilteredDirectoryContents: return r + hex(k.getFilteredDirectoryPath().str()) + " - " + fl();
+  case BuildKey::Kind::DirectoryTreeSignature: return r + hex(k.getDirectoryTreeSignaturePath().str()) + " - " + fl();
+  case BuildKey::Kind::DirectoryTreeStructureSignature: return r + hex(k.getFilteredDirectoryPath().str()) + " - " + fl();
+  case BuildKey::Kind::Node: return r + hex(k.getNodeName().str()) + " - .";
+  case BuildKey::Kind::Stat: return r + hex(k.getStatName().str()) + " - .";
+  case BuildKey::Kind::Target: return r + hex(k.getTargetName().str()) + " - .";
+  default: return r + "- - .";
+  }
+}
 
 static std::string handle(const SV& t) {
   const std::string& c = t[0];
@@ -12,6 +105,48 @@ static std::string handle(const SV& t) {
     return buildsystem::pathIsPrefixedByPath(unhex(t[1]), unhex(t[2])) ? "1" : "0";
   if (c == "shell_escaped" && t.size() == 2) {
     return hex(basic::shellEscaped(unhex(t[1])));
+  }
+  // value_enc <kind> <sig> <infos> <strs>: bytes of toData(); the same value reached through copy, move,
+  // move-assignment over a multi-output value and decode(encode) must give identical bytes
+  if (c == "value_enc" && t.size() == 5) {
+    int kind = atoi(t[1].c_str()); uint64_t sig = strtoull(t[2].c_str(), 0, 10);
+    auto infos = parseFIs(t[3]); SV strs = unlist(t[4]);
+    BuildValue v = makeValue(kind, sig, infos, strs);
+    std::string b0 = vbytes(v);
+    BuildValue cp(v); std::string b1 = vbytes(cp);
+    BuildValue mv(std::move(cp)); std::string b2 = vbytes(mv);
+    FileInfo z[3]; memset(z, 0xAB, sizeof(z));
+    BuildValue tgt = BuildValue::makeSuccessfulCommand(ArrayRef<FileInfo>(z, 3));
+    tgt = std::move(mv); std::string b3 = vbytes(tgt);
+    auto d = v.toData(); BuildValue rd = BuildValue::fromData(d); std::string b4 = vbytes(rd);
+    if (b1 != b0 || b2 != b0 || b3 != b0 || b4 != b0)
+      return "INCONSISTENT direct=" + b0 + " copy=" + b1 + " move=" + b2 + " moveassign=" + b3 + " redecoded=" + b4;
+    return b0;
+  }
+  if (c == "value_dec" && t.size() == 2) {
+    std::string b = unhex(t[1]); core::ValueType d(b.begin(), b.end());
+    BuildValue v = BuildValue::fromData(d);
+    return showValue(v);
+  }
+  if (c == "key_enc" && t.size() == 5) {
+    BuildKey k = makeKey(atoi(t[1].c_str()), unhex(t[2]), unhex(t[3]), unlist(t[4]));
+    return hex(k.toData().str());
+  }
+  if (c == "key_dec" && t.size() == 2) {
+    BuildKey k = BuildKey::fromData(core::KeyType(unhex(t[1])));
+    return showKey(k);
+  }
+  // probe_codec: tag byte of an instance of every value kind (enum order), identifierForKind for every key kind,
+  // kindForIdentifier for every char
+  if (c == "probe_codec") {
+    std::string r = "value_tags";
+    FileInfo fi; memset(&fi, 0, sizeof(fi)); fi.inode = 1; std::vector<FileInfo> one{fi};
+    for (int k = 0; k < 18; k++) { BuildValue v = makeValue(k, 1, one, SV{"x"}); auto d = v.toData(); r += " " + std::to_string((int)d[0]) + ":" + std::to_string((int)v.getKind()); }
+    r += " | char_of_kind";
+    for (int k = 0; k < 9; k++) r += " " + std::to_string((int)(unsigned char)BuildKey::identifierForKind((BuildKey::Kind)k));
+    r += " | kind_of_char";
+    for (int ch = 0; ch < 256; ch++) r += " " + std::to_string((int)BuildKey::kindForIdentifier((char)ch));
+    return r;
   }
   return "ERR unknown";
 }
